@@ -7,6 +7,9 @@ import (
 	"sort"
 	"time"
 
+	"github.com/go-spatial/geom"
+	"github.com/pdok/texel/intgeom"
+
 	"github.com/pdok/texel/snap"
 
 	hc "verif/hcommon"
@@ -44,6 +47,14 @@ func validCase(c *hc.Ctx, grids []*Grid, maxW int64) (*Grid, [][]Pt, string) {
 		g := pickGrid(c, grids)
 		w := randWindow(c.Rng, g, maxW)
 		poly, kind := genValidPolygon(c.Rng, w)
+		if g.Dyadic && c.Rng.Intn(8) == 0 {
+			if pp, ok := genPinched(c.Rng, w); ok {
+				poly, kind = pp, "pinched"
+				if len(pp) > 1 {
+					kind = "pinched+hole"
+				}
+			}
+		}
 		if !g.Dyadic { // decimal grid: nudge every ordinate to an integer whose float image reads back as itself
 			ok := true
 			for _, ring := range poly {
@@ -914,6 +925,47 @@ func runC09(c *hc.Ctx) error {
 		c.Case(snapCaseTerm(g, poly, ids, cfg, r), caseJSON(g, poly, ids, cfg, r))
 		if i < 3 {
 			c.Sample(caseJSON(g, poly, ids, cfg, r))
+		}
+	}
+	// far outside: vertices whole multiples of 2^32 (and 2^31, 2^16) deepest pixels beyond a border, on a real
+	// deep grid (NetherlandsRDNewQuad tile matrix 12-14: non-zero origin), where such distances fit in int64
+	for i := 0; i < c.N(60, 2000); i++ {
+		id := 12 + c.Rng.Intn(3)
+		g, err := embeddedGrid("NetherlandsRDNewQuad", id)
+		if err != nil {
+			return err
+		}
+		size := int64(1) << g.Deep
+		base := Pt{g.Ext[0] + (size/2+c.Rng.Int63n(1000))*g.Res + g.Res/2, g.Ext[1] + (size/2+c.Rng.Int63n(1000))*g.Res + g.Res/2}
+		ring := []Pt{base, {base[0] + 40*g.Res, base[1]}, {base[0] + 20*g.Res, base[1] + 30*g.Res}}
+		k := []int64{1 << 32, 1 << 31, 1 << 16, 3 << 32}[c.Rng.Intn(4)]
+		off := k*g.Res + c.Rng.Int63n(size)*g.Res/4
+		ax := c.Rng.Intn(2)
+		if c.Rng.Intn(2) == 0 {
+			off = -off
+		}
+		ring[1][ax] += off
+		// such magnitudes do not survive the float round trip, so this stream is oracle-only (floats in, no model case)
+		fp := geom.Polygon{make([][2]float64, len(ring))}
+		for j := range ring {
+			fp[0][j] = [2]float64{float64(ring[j][0]) / 1e10, float64(ring[j][1]) / 1e10}
+		}
+		seen := intgeom.FromGeomPoint(fp[0][1])
+		if g.inGrid([][]Pt{{{seen[0], seen[1]}}}) {
+			continue
+		}
+		cfg := randCfg(c.Rng)
+		cfg.IgnoreOutsideGrid = c.Rng.Intn(2) == 0
+		r := runSnapFloat(g, fp, []int{id}, cfg, watchdog)
+		c.Sum.Evaluations++
+		c.Count("far outside (multiples of 2^16..2^32 pixels), NetherlandsRDNewQuad")
+		c.Nontrivial(fmt.Sprint(fp, id, cfg))
+		in := map[string]any{"grid": g.Name, "ids": []int{id}, "config": cfgJSON(cfg), "polygon": fp}
+		switch {
+		case !cfg.IgnoreOutsideGrid && r.Panic != "OutsideGrid":
+			c.Violate(hc.Violation{What: "a polygon with a vertex far outside the grid was not rejected with OutsideGrid", Input: in, Expected: "panic OutsideGrid", Observed: r.Panic + " " + r.PanicMsg})
+		case cfg.IgnoreOutsideGrid && (r.Panic != "" || len(r.Raw) != 0):
+			c.Violate(hc.Violation{What: "with ignore-outside-grid a polygon with a vertex far outside the grid did not return an empty result", Input: in, Expected: "empty map", Observed: r.Panic + " " + r.PanicMsg})
 		}
 	}
 	return nil
